@@ -26,6 +26,10 @@ def patterns_for(tree, boxroot):
     fn = sorted({f for i in range(len(tree.parents)) for f in tree.files(i) if dirmodel.is_cmake(f)})
     pats += fn
     pats += ["a*.cmake", "*.cmake", "**/" + (dn[0] if dn else "zz") + "/"]
+    # patterns with an inner slash (anchored in gitignore terms), written relative to the input directory
+    for i in range(1, len(tree.parents)):
+        pats += [tree.rel(i) + "/*.cmake", tree.names[i] + "/a.cmake"]
+    pats = list(dict.fromkeys(pats))
     for i in range(len(tree.parents)):
         rel = tree.rel(i)
         base = os.path.join(boxroot, "work", "in") if rel == "." else os.path.join(boxroot, "work", "in", rel)
@@ -47,6 +51,7 @@ def resolve(p, boxroot):
 def run_case(job, ret_files=False):
     parents, contents, recursive, auto, prefix, pats = job[:6]
     symlink, follow = (job[6], job[7]) if len(job) > 6 else (None, False)
+    rstopts = dict(job[8]) if len(job) > 8 else {}
     tree = Tree(parents, contents)
     box = fsbox.Box("c14")
     msgs = []
@@ -76,6 +81,8 @@ def run_case(job, ret_files=False):
         with open(box.path("work", "s.yaml"), "w") as f:
             f.write(f"input:\n  auto_exclude_directories_without_cmake: {str(auto).lower()}\n"
                     f"  follow_symlinks: {str(follow).lower()}\n")
+            if rstopts:
+                f.write("rst:\n" + "".join(f"  {k}: {v if not isinstance(v, bool) else str(v).lower()}\n" for k, v in rstopts.items()))
         argv = ["-s", "s.yaml", "-o", "out"] + (["-r"] if recursive else []) + (["-p", prefix] if prefix else [])
         for p in rp:
             argv += ["-e", p]
@@ -86,7 +93,8 @@ def run_case(job, ret_files=False):
         else:
             files = box.files("work/out") if os.path.isdir(box.path("work", "out")) else {}
             if files:
-                msgs += dirmodel.closure_messages(files, recursive, prefix or "in")
+                msgs += dirmodel.closure_messages(files, recursive, prefix or "in",
+                                                  sep=str(rstopts.get("module_path_separator", ".")).strip("'"))
             nidx = sum(1 for k in files if k.endswith("index.rst"))
             nt = nidx >= 2 or len(files) >= 4
         if msgs:
@@ -129,6 +137,15 @@ def run(ctx):
                     if quick:
                         continue
                     jobs.append((parents, a, recursive, auto, "P", ["lnk/"], symlink, follow))
+    # the rst options that change how pages are titled must not change how they are linked
+    ropts = [(("file_extensions_in_titles", True),), (("file_extensions_in_modules", True),),
+             (("file_extensions_in_titles", True), ("file_extensions_in_modules", True), ("module_path_separator", "'/'")),
+             (("module_path_separator", "'::'"),)]
+    for parents in shapes:
+        for a in (["one"] * len(parents), ["dots"] + ["two"] * (len(parents) - 1)):
+            for ro in ropts:
+                for recursive, auto in itertools.product((True, False), (True, False)):
+                    jobs.append((parents, a, recursive, auto, None if len(jobs) % 2 else "P", [], None, False, ro))
     ctx.cov["bounds"] = {"tree_shapes": len(shapes), "runs": len(jobs)}
     ctx.sweep(run_case, jobs, space="trees x patterns x configurations", selftest=5)
     ctx.assumptions += ["with auto-exclusion on the input directory keeps a non-excluded .cmake file (domain of C13/C14)",
